@@ -132,7 +132,7 @@ def _frac(x):
 def _data(spec, d):
     k = spec["k"]
     if k == "vec":
-        return [_num(x) for x in d]
+        return [[_num(y) for y in x] if isinstance(x, list) else _num(x) for x in d]
     if k == "graph":
         c0 = tuple(_num(x) for x in d[0]) if isinstance(d[0], list) else _num(d[0])
         return (c0, _num(d[1]))
@@ -190,11 +190,19 @@ def _build(spec, zero=False):
             seq = lena.flow.StoreFilled(False)
         elif sq == "fcsum":       # a sum sequence without reset
             seq = lena.core.FillCompute(lena.math.Sum())
+        elif sq == "storetag":    # several values, each with its own context (no reset either)
+            seq = lena.core.FillComputeSeq(lena.flow.StoreFilled(False), lambda x: (x, {"v%d" % x: 1}))
+        elif sq == "storenest":   # ... with nested contexts (update_recursively, not dict.update)
+            seq = lena.core.FillComputeSeq(lena.flow.StoreFilled(False), lambda x: (x, {"n": {"k%d" % x: 1}, "w": x}))
         else:
             cls = {None: None, "sum": lena.math.Sum, "dsum": lena.math.DSum}[sq]
             seq = cls() if cls else None
         return lena.math.Mean(seq, pass_on_empty=spec["poe"])
     if k == "vmc":
+        if spec.get("sums") == "fc":      # one sum without reset: the element has no reset method either
+            import lena.core
+            return lena.math.VarianceMeanCount(lena.core.FillCompute(lena.math.Sum()), lena.math.Sum(),
+                                               corrected=spec["corrected"], pass_on_empty=spec["poe"])
         if spec.get("explicit"):
             return lena.math.VarianceMeanCount(lena.math.Sum(), lena.math.Sum(), corrected=spec["corrected"],
                                                pass_on_empty=spec["poe"])
@@ -207,8 +215,8 @@ def _build(spec, zero=False):
         import lena.core
         mul = spec.get("wrap")           # None: the bare element; k: FillComputeSeq(lambda x: k*x, element) (1: no lambda)
 
-        def comp():
-            el = _build(spec["inner"])
+        def comp(i=0):
+            el = _build(_inner_of(spec, i))
             if mul is None:
                 return el
             if mul == 1:
@@ -222,7 +230,7 @@ def _build(spec, zero=False):
             import collections
             kw["construct"] = collections.namedtuple("made", ["f%d" % i for i in range(con)])
         if spec["list"]:
-            seqs = [comp() for _ in range(spec["nseq"])]
+            seqs = [comp(i) for i in range(_vec_dim(spec))]
             return lena.math.Vectorize(seqs, **kw) if spec["dim"] is None else lena.math.Vectorize(seqs, spec["dim"], **kw)
         inner = comp()
         return lena.math.Vectorize(inner, **kw) if spec["dim"] is None else lena.math.Vectorize(inner, spec["dim"], **kw)
@@ -238,8 +246,21 @@ def _build(spec, zero=False):
             kw["initial_value"] = spec["iv"]
         return lena.structures.Histogram(edges, **kw)
     if k == "graph":
+        if not zero and (spec.get("points0") is not None or spec.get("context0") is not None):
+            pts = None if spec.get("points0") is None else [(_num(p[0]), _num(p[1])) for p in spec["points0"]]
+            return lena.structures.Graph(points=pts, context=copy.deepcopy(spec.get("context0")),
+                                         scale=spec["scale0"], sort=spec["sort"])
         return lena.structures.Graph(scale=spec["scale0"], sort=spec["sort"])
+    if k == "vec2":
+        return lena.math.Vectorize(lena.math.Sum(), spec["dim"])
     raise ValueError(k)
+
+
+def _inner_of(spec, i):
+    """the configuration of component i of a Vectorize"""
+    if spec.get("het"):
+        return {"sum": {"k": "sum", "total0": 0}, "count": {"k": "count", "name": "count", "count0": 0}}[spec["het"][i]]
+    return spec["inner"]
 
 
 def _enc(o):
@@ -291,43 +312,67 @@ def _adapter(el, via):
     return el
 
 
-def _run_ops(el, spec, ops, eqs=None, base=0):
+class _Receiver:
+    """what Count.fill_into hands its value to"""
+    def __init__(self):
+        self.got = []
+
+    def fill(self, value):
+        self.got.append(value)
+
+
+def _run_ops(el, spec, ops, live=None):
     obs = []
     drv = _adapter(el, spec.get("via"))
     cmp_el = drv if spec.get("via") == "fc" else el
     rst_el = el if spec.get("via") == "fc" else drv
+    alias = spec.get("alias")            # GroupBy: the deprecated names update (= fill) and clear (= reset)
+    kept = []                            # (op index, yield index, what, object, its encoding when it was yielded)
     for i, op in enumerate(ops):
         if op[0] == "run":
             try:
                 obs.append({"run": [_enc(y) for y in el.run(iter([_value(spec, v) for v in op[1]]))]})
             except Exception as e:
                 obs.append({"rune": exc_name(e)})
+        elif op[0] == "fi":
+            rc = _Receiver()
+            try:
+                el.fill_into(rc, _value(spec, op[1]))
+                obs.append({"fi": [_enc(y) for y in rc.got]})
+            except Exception as e:
+                obs.append({"fie": exc_name(e)})
         elif op[0] == "f":
             try:
-                drv.fill(_value(spec, op[1]))
+                (drv.update if alias else drv.fill)(_value(spec, op[1]))
                 obs.append({"f": None})
             except Exception as e:
                 obs.append({"f": exc_name(e)})
         elif op[0] == "c":
             try:
                 out = []
-                for y in cmp_el.compute():
+                for j, y in enumerate(cmp_el.compute()):
                     out.append(_enc(y))       # encoded at yield time: histograms, graphs and groups are live objects
+                    if live is not None:
+                        if isinstance(y, tuple) and len(y) == 2 and isinstance(y[1], dict):
+                            kept.append((i, j, "context", y[1], _enc(y[1])))      # documented: a (deep) copy
+                        if spec["k"] == "store" and spec.get("group") and isinstance(y, list):
+                            kept.append((i, j, "group", y, _enc(y)))              # documented: a copy of the group
                 obs.append({"c": out})
             except Exception as e:
                 obs.append({"ce": exc_name(e)})
         else:
             try:
-                rst_el.reset()
+                (rst_el.clear if alias else rst_el.reset)()
                 obs.append("r")
             except Exception as e:
                 obs.append({"re": exc_name(e)})
-                continue
-            if eqs is not None and type(el).__eq__ is not object.__eq__:
-                try:                    # `==` is an observation too: a reset element equals a new one
-                    eqs[str(base + i)] = bool(el == _build(spec, zero=True))
-                except Exception as e:
-                    eqs[str(base + i)] = exc_name(e)
+    if live is not None:
+        for (i, j, what, obj, enc0) in kept:
+            enc1 = _enc(obj)
+            if enc1 != enc0:
+                live.append(f"the {what} yielded by op {i} (value {j}) was {enc0} when yielded and is {enc1} after the rest "
+                            f"of the history: it is not a copy")
+                break
     return obs
 
 
@@ -339,8 +384,9 @@ def run_impl(case):
         el = _build(spec)
     except Exception as e:
         return {"init_err": exc_name(e)}
-    eqs = {}
-    res = {"obs": _run_ops(el, spec, ops, eqs), "fresh": {}, "eq": eqs}
+    live = []
+    res = {"obs": _run_ops(el, spec, ops, live), "fresh": {}, "live": live,
+           "has_reset": callable(getattr(el, "reset", None))}
     # reset-equals-fresh: after every reset, the rest of the history on a newly constructed element
     for i, op in enumerate(ops):
         if op[0] == "r" and i + 1 < len(ops) and res["obs"][i] == "r":
@@ -369,8 +415,11 @@ def _graph_reset_restores_scale():
 def _leaf_table(case):
     """opaque codes for the context leaves that are not ints"""
     tab = {}
+    for v in (case["el"].get("context0") or {}).values():
+        if not (isinstance(v, int) and not isinstance(v, bool)) and v is not None:
+            tab.setdefault(jdump(_enc(_dec_leaf(v))), 10 ** 9 + len(tab))
     for op in case["ops"]:
-        if op[0] == "f" and op[1].get("c"):
+        if op[0] in ("f", "fi") and op[1].get("c"):
             for v in op[1]["c"].values():
                 if not (isinstance(v, int) and not isinstance(v, bool)) and v is not None:
                     tab.setdefault(jdump(_enc(_dec_leaf(v))), 10 ** 9 + len(tab))
@@ -450,13 +499,15 @@ def _main_requests(case):
         el = _m_spec(spec)
     elif k == "countrun":
         el = {"k": "countrun", "name": spec["name"], "count0": spec["count0"]}
-    elif k == "mean" and spec["seq"] in ("sumt", "count", "store", "fcsum"):
-        if spec["seq"] == "fcsum" and any(op[0] == "r" for op in case["ops"]):
+    elif k == "mean" and spec["seq"] == "storenest":
+        return []                      # nested contexts of the sum sequence: judged by the oracle
+    elif k == "mean" and spec["seq"] in ("sumt", "count", "store", "fcsum", "storetag"):
+        if spec["seq"] in ("fcsum", "storetag") and any(op[0] == "r" for op in case["ops"]):
             return []                  # reset() raises LenaAttributeError: judged by the oracle
         inner = {"sumt": {"k": "sum", "total0": _scaled(spec.get("t0", 0), sh)},
                  "fcsum": {"k": "sum", "total0": 0},
                  "count": {"k": "count", "name": "count", "count0": 0},
-                 "store": {"k": "storeitems"}}[spec["seq"]]
+                 "store": {"k": "storeitems"}, "storetag": {"k": "storetag"}}[spec["seq"]]
         el = {"k": "meanover", "inner": inner, "poe": spec["poe"]}
     elif k == "sum":
         el = {"k": "sum", "total0": _scaled(spec["total0"], sh)}
@@ -465,11 +516,16 @@ def _main_requests(case):
     elif k == "mean" and spec["seq"] == "dsum":
         el = {"k": "meand", "poe": spec["poe"]}
     elif k in ("mean", "vmc", "store"):
+        if k == "vmc" and spec.get("sums") == "fc" and any(op[0] == "r" for op in case["ops"]):
+            return []                  # the element has no reset method: judged by the oracle
         el = _m_spec(spec)
-        el.pop("explicit", None)
-        el.pop("via", None)
     elif k == "groupby":
         el = {"k": "groupby"}
+    elif k == "vec" and spec.get("het"):
+        el = {"k": "vechet", "comps": [{"k": x} for x in spec["het"]], "construct": spec.get("construct")}
+    elif k == "vec" and spec["inner"]["k"] == "vec2":
+        el = {"k": "vec", "inner": {"k": "vecsum", "dim": spec["inner"]["dim"]}, "list": spec["list"],
+              "nseq": spec.get("nseq", 1), "dim": spec["dim"], "construct": spec.get("construct")}
     elif k == "vec":
         inner = spec["inner"]
         if inner["k"] == "mean" and inner["seq"] == "dsum":
@@ -483,7 +539,7 @@ def _main_requests(case):
         el = {"k": "vec", "inner": mi, "list": spec["list"], "nseq": spec.get("nseq", 1), "dim": spec["dim"],
               "mul": spec.get("wrap"), "construct": spec.get("construct")}
         if spec["dim"] is not None and spec["dim"] < 0:
-            return []
+            el["dim"] = 0              # range(dim - 1) is empty for every dim <= 1: one component
     elif k == "hist":
         if spec.get("md"):
             el = None
@@ -497,7 +553,9 @@ def _main_requests(case):
                  "bins": spec.get("bins"), "make_bins": spec.get("make_bins"),
                  "iv": 0 if spec.get("iv") is None else spec["iv"]}
     elif k == "graph":
-        el = {"k": "graph", "scale0": spec["scale0"], "sort": spec["sort"], "reset_scale": _graph_reset_restores_scale()}
+        el = {"k": "graph", "scale0": spec["scale0"], "sort": spec["sort"], "reset_scale": _graph_reset_restores_scale(),
+              "points0": None if spec.get("points0") is None else [[_scaled(p[0], sh), _scaled(p[1], sh)] for p in spec["points0"]],
+              "context0": _m_ctx(spec.get("context0"), tab)}
     else:
         raise ValueError(k)
     keys = {}
@@ -505,13 +563,17 @@ def _main_requests(case):
     for op in case["ops"]:
         if op[0] == "run":
             ops.append({"o": "run", "vs": [{"c": _m_ctx(v.get("c"), tab), "d": _scaled(v["d"], sh)} for v in op[1]]})
+        elif op[0] == "fi":
+            ops.append({"o": "fi", "v": {"c": _m_ctx(op[1].get("c"), tab), "d": _scaled(op[1]["d"], sh)}})
         elif op[0] == "f":
             v = op[1]
             mv = {"c": _m_ctx(v.get("c"), tab)}
             if k == "dsum" or (k == "mean" and spec["seq"] == "dsum"):
                 mv["d"] = _dyadic(v["d"])
-            elif k == "vec" and el["inner"]["k"] in ("meand", "dsum"):
+            elif k == "vec" and not spec.get("het") and el["inner"]["k"] in ("meand", "dsum"):
                 mv["d"] = [_dyadic(x) for x in v["d"]]
+            elif k == "vec" and not spec.get("het") and el["inner"]["k"] == "vecsum":
+                mv["d"] = [[_scaled(y, sh) for y in x] for x in v["d"]]
             elif k == "vec":
                 mv["d"] = [_scaled(x, sh) for x in v["d"]]
             elif k == "graph":
@@ -694,6 +756,14 @@ def _near(got, exact, bound, what):
         raise _Mismatch(f"{what} {float.fromhex(got['fl'])!r} differs from the model's exact {exact} by more than {float(bound)!r}")
 
 
+def _inner_spec_full(spec, i):
+    """component i of a Vectorize as an element configuration of its own"""
+    inner = _inner_of(spec, i)
+    if inner["k"] == "vec2":
+        return {"k": "vec", "inner": {"k": "sum", "total0": 0}, "list": False, "dim": inner["dim"]}
+    return inner
+
+
 def _vec_row(d):
     """(components, constructed?) of the data part of a value yielded by Vectorize"""
     if isinstance(d, dict) and "t" in d:
@@ -783,7 +853,6 @@ def _conv_out(kind, spec, e, sh, tab, m):
     if kind == "vec":
         d, c = _split_pair(e)
         row, made = _vec_row(d)
-        inner = spec["inner"]
         md = m.get("d") if isinstance(m, dict) else None
         if isinstance(md, dict) and "made" in md:
             md = md["made"]
@@ -793,6 +862,7 @@ def _conv_out(kind, spec, e, sh, tab, m):
             mi = md[i] if isinstance(md, list) and i < len(md) else None
             if isinstance(mi, dict) and ns is not None and i < len(ns):
                 mi = dict(mi, __n=ns[i])
+            inner = _inner_spec_full(spec, i)
             comps.append(None if x is None else _conv_out(inner["k"], inner, x, sh, tab, mi))
         r = {"d": {"made": comps} if made else comps}
         if c is not None:
@@ -880,6 +950,16 @@ def _compare_one(case, res, m):
                     return f"op {i} run: {e}"
                 if cy != z:
                     return f"op {i} run: impl {cy} vs model {z}"
+            continue
+        if "fi" in a or "fi" in b or "fie" in a:
+            if "fi" not in a or "fi" not in b or len(a["fi"]) != 1:
+                return f"op {i} fill_into: impl {a} vs model {b}"
+            try:
+                cy = _conv_out("item", spec, a["fi"][0], sh, tab, None)
+            except _Mismatch as e:
+                return f"op {i} fill_into: {e}"
+            if cy != b["fi"]:
+                return f"op {i} fill_into: impl {cy} vs model {b['fi']}"
             continue
         if "f" in a or "f" in b:
             if a.get("f") != b.get("f") or set(a) != set(b):
@@ -1161,6 +1241,8 @@ def _agg_fail(spec, e, fills, start, zero):
 
 
 def _vec_dim(spec):
+    if spec.get("het"):
+        return len(spec["het"])
     if spec["list"]:
         return spec["nseq"]
     return max(spec["dim"], 1)
@@ -1230,6 +1312,8 @@ def oracle(case, res):
         bad = _oracle_countrun(spec, ops, obs)
         if bad:
             return bad
+    if res.get("live"):
+        return f"{res['live'][0]} (history {_show(ops)})"
     # 1. the documented aggregate, for every compute whose preceding fills (since construction / the last reset) all succeeded
     fills, zero, clean = [], False, True
     gscale = spec.get("scale0")            # Graph: the scale a newly constructed graph has
